@@ -541,6 +541,16 @@ def rule_from_str(ctx):
             {},
         )
     need(ctx, "fromstr:lowercase", key_map.group(1) == "to_lowercase", w, "case-insensitive matching no longer uses `to_lowercase`")
+    # the generated `from_str` decides by the match alone: nothing looks at the raw input before it is normalised
+    need(
+        ctx,
+        "fromstr:match-only",
+        re.search(r"fnfrom_str\(\w+:&str\)->[^{]*\{(derive_more::core::result::Result::)?Ok\(match\w+\.", impl) is not None,
+        w,
+        "the generated `from_str` no longer consists of the `match` on the normalised input alone: a statement before it (a pre-check on the raw input's byte length, first character, ..) can reject strings the match accepts - "
+        "lengths computed from `variant.to_string()` include the `r#` of raw identifiers (`r#if` makes \"if\" too short), and lower-casing changes the UTF-8 length",
+        {"impl": impl[:300]},
+    )
     # guard structure
     loop = None
     mm = A.wsearch(t, "let mut groups=HashMap::default()")
